@@ -10,8 +10,12 @@ def run(ck, progs):
     ck.rule("C16.2", "the comparator reads only event content: timestamp, cancellation bit, type, payload size, payload bytes")
     ck.rule("C16.3", "every ordering decision over events (queue heap, serial heap, straggler test and matcher) is an expansion of "
                      "msg_is_before / q_elem_is_before of the canonical shape t(a)<t(b) || (t(a)==t(b) && ext(a,b))")
+    ck.rule("C16.4", "the heaps that use the order keep their shape: at every heap_insert / heap_extract expansion the comparisons have the operand "
+                     "roles and polarity of a min-heap, the sibling is examined whenever it exists, the hole and the moved element are updated in "
+                     "step, and extract's child index and insert's parent index are inverse (parent(child(j)) = parent(child(j)+1) = j)")
     ck.assume("timestamps are not NaN (a NaN timestamp is not a valid model input)")
     ck.assume("lexicographic composition of strict weak orders over key projections is a strict weak order")
     for cfg, P in progs.items():
         rules_cmp.check_extended(ck, P, "C16.1", "C16.2")
-        rules_cmp.check_uses(ck, P, "C16.3")
+        sites = rules_cmp.check_uses(ck, P, "C16.3")
+        rules_cmp.check_heap_shape(ck, P, "C16.4", sites)
